@@ -255,7 +255,7 @@ theorem removeChecks_clean (s0 : KState ℚ σ) (hold : ∀ c e, e ∈ ops s0 c 
             omega
         · rename_i hy
           have : ¬ (a == y) = true := by intro hh; rw [beq_iff_eq] at hh; exact hy hh.symm
-          simp only [this, if_false, Nat.add_zero]
+          simp only [this]
           exact hcnt y L hL
       have hpre1 : ∀ e ∈ pre, ∀ d, Under s0 d e → Clean (_root_.eraseCheck x c a) d :=
         fun e he d hu => (hpre e he d hu).rm h1
